@@ -28,6 +28,8 @@ import BumpProof.Lemmas.CollGrow
 import BumpProof.Lemmas.CollPerm
 import BumpProof.Lemmas.CollDrain
 import BumpProof.Lemmas.CollExtract
+import BumpProof.Lemmas.CollRev
+import BumpProof.Lemmas.CollRevPerm
 
 namespace C06
 open Coll
@@ -239,6 +241,54 @@ theorem resize_drops_once (env : Env) (v : Vec) (newLen : Nat) (value : Id) (o :
     refine dropsOnce_inplace hv heq (resizeSpec_perm _ _ _ _ _ _) ?_ hfresh
     split at hlen <;> omega
 
+theorem resize_with_drops_once (env : Env) (v : Vec) (newLen : Nat) (o : List Outcome) (hv : v.WF)
+    (hfresh : (v.total ++ clonedIds (newLen - v.len) o).Nodup) :
+    DropsOnce (resizeWith env v newLen o) v
+      (if newLen > v.len ∧ room env v (newLen - v.len) then clonedIds (newLen - v.len) o else []) := by
+  have ⟨hs, hl⟩ := hv.slots_eq
+  have hcap := hv.len_le_cap
+  have heq := resizeWith_eq env v v.abs newLen o hs hl
+  by_cases h : newLen > v.len
+  · have h' : newLen > v.abs.length := by omega
+    have ⟨g, hc⟩ := grown_grows (env := env) (n := newLen - v.len) hv
+    simp only [h, ↓reduceIte, resizeWithSpec, h', hl] at heq
+    have hlen := extendCloneSpecR_len (room env v (newLen - v.len)) v.abs (newLen - v.len) o
+    have := g.cap
+    by_cases hr : room env v (newLen - v.len) = true
+    · have := hc hr
+      simp only [h, hr, and_self, ↓reduceIte]
+      rw [hr] at heq hlen
+      refine dropsOnce_grown hv g heq (by simpa using extendCloneSpecR_perm true v.abs (newLen - v.len) o) ?_ hfresh
+      simp at hlen; omega
+    · have hr' : room env v (newLen - v.len) = false := by simpa using hr
+      simp only [hr', Bool.false_eq_true, and_false, ↓reduceIte]
+      rw [hr'] at heq hlen
+      refine dropsOnce_grown hv g heq (by simpa using extendCloneSpecR_perm false v.abs (newLen - v.len) o) ?_ (by simpa using hv.2)
+      simp at hlen; omega
+  · have h' : ¬ newLen > v.abs.length := by omega
+    simp only [h, false_and, ↓reduceIte, resizeWithSpec, h'] at heq ⊢
+    refine dropsOnce_inplace hv heq (by simpa using truncateSpec_perm env.bombs v.abs newLen) ?_ (by simpa using hv.2)
+    have := truncateSpec_len env.bombs v.abs newLen; simp only; omega
+
+theorem pop_if_drops_once (v : Vec) (o : List Outcome) (hv : v.WF) : DropsOnce (popIf v o) v [] := by
+  have ⟨hs, hl⟩ := hv.slots_eq
+  have hcap := hv.len_le_cap
+  have hperm : ((popIfSpec v.abs o).final ++ (popIfSpec v.abs o).dropped ++ (popIfSpec v.abs o).escaped).Perm v.abs := by
+    unfold popIfSpec
+    by_cases hne : v.abs = []
+    · rw [hne]; simp
+    · rw [List.getLast?_eq_some_getLast hne]
+      match o with
+      | [] => simp
+      | .panic :: o => simp
+      | .ret b :: o =>
+        simp only
+        split
+        · simp [List.dropLast_concat_getLast]
+        · simp
+  refine dropsOnce_inplace hv (popIf_eq v v.abs o hs hl) (by simpa using hperm) ?_ (by simpa using hv.2)
+  have := hperm.length_eq; simp only [List.length_append] at this; omega
+
 /-! ## the draining / consuming iterators: `drain` (+ `keep_rest`), `extract_if`, `into_iter`
 
   The caller's behaviour is a script of `next` / `next_back` calls followed by how the iterator is
@@ -310,6 +360,168 @@ theorem append_drops_once (env : Env) (v other : Vec) (hv : v.WF) (ho : other.WF
     have h2 := hw.2
     simp only [List.append_nil] at h2
     simpa [appendedOther] using List.Perm.append_right other.abs h2
+
+/-! ## `MutBumpVecRev` (elements at the END of the buffer, `Coll/Rev.lean`)
+
+  Same statement shape with the reverse well-formedness `RWF` (`slots = holes ++ values`). -/
+
+/-- `DropsOnce` for a reverse vector -/
+def RDropsOnce {α : Type} (res : M (Out α)) (v : Vec) (ins : List Id) : Prop :=
+  ∃ r, res = .ok r ∧ r.vec.RWF ∧ r.vec.total.Perm (v.total ++ ins)
+
+theorem rdropsOnce_of_eq {α : Type} {res : M (Out α)} {v v' : Vec} {r : SpecOut α} {rest : List Outcome} {ins : List Id}
+    (hv : v.RWF) (hg : RGrows v v' v.rabs) (hres : res = .ok ⟨v'.rafter r, r.exit, rest⟩)
+    (hperm : (r.final ++ r.dropped ++ r.escaped).Perm (v.rabs ++ ins)) (hlen : r.final.length ≤ v'.cap)
+    (hins : (v.total ++ ins).Nodup) : RDropsOnce res v ins := by
+  have := rwf_after_of_eq hv hg hperm hlen hins
+  exact ⟨_, hres, this.1, this.2⟩
+
+theorem RGrows.refl' {v : Vec} (hv : v.RWF) : RGrows v v v.rabs :=
+  ⟨hv.slots_eq.1, rfl, rfl, rfl, Nat.le_refl _⟩
+
+theorem rev_drop_owner (bombs : List Id) (u : Bool) (v : Vec) (hv : v.RWF) :
+    rdropVec bombs u v =
+      .ok ⟨{ v with slots := H v.cap, len := 0, dropLog := v.dropLog ++ v.rabs },
+           if (!u && v.rabs.any bombs.contains) then .panic true else .ret (), []⟩ :=
+  rdropVec_eq bombs u v v.rabs hv.slots_eq.1 hv.slots_eq.2
+
+theorem rev_pop_drops_once (v : Vec) (hv : v.RWF) : RDropsOnce (rpop v) v [] := by
+  have ⟨hs, hl⟩ := hv.slots_eq
+  refine rdropsOnce_of_eq hv (RGrows.refl' hv) (rpop_eq v v.rabs hs hl) (by simpa using rpopSpec_perm v.rabs) ?_ (by simpa using hv.2)
+  have h1 := (rpopSpec_perm v.rabs).length_eq; have := hv.len_le_cap
+  simp only [List.length_append] at h1; omega
+
+theorem rev_clear_drops_once (bombs : List Id) (v : Vec) (hv : v.RWF) : RDropsOnce (rclear bombs v) v [] := by
+  have ⟨hs, hl⟩ := hv.slots_eq
+  exact rdropsOnce_of_eq hv (RGrows.refl' hv) (rclear_eq bombs v v.rabs hs hl) (by simpa using clearSpec_perm bombs v.rabs)
+    (by simp [clearSpec]) (by simpa using hv.2)
+
+theorem rev_truncate_drops_once (bombs : List Id) (v : Vec) (n : Nat) (hv : v.RWF) : RDropsOnce (rtruncate bombs v n) v [] := by
+  have ⟨hs, hl⟩ := hv.slots_eq
+  refine rdropsOnce_of_eq hv (RGrows.refl' hv) (rtruncate_eq bombs v v.rabs n hs hl) (by simpa using rtruncateSpec_perm bombs v.rabs n) ?_
+    (by simpa using hv.2)
+  have h1 := (rtruncateSpec_perm bombs v.rabs n).length_eq; have := hv.len_le_cap
+  simp only [List.length_append] at h1; omega
+
+theorem rev_remove_drops_once (v : Vec) (i : Nat) (hv : v.RWF) : RDropsOnce (rremove v i) v [] := by
+  have ⟨hs, hl⟩ := hv.slots_eq
+  refine rdropsOnce_of_eq hv (RGrows.refl' hv) (rremove_eq v v.rabs i hs hl) (by simpa using removeSpec_perm v.rabs i) ?_
+    (by simpa using hv.2)
+  have := removeSpec_len v.rabs i; have := hv.len_le_cap; omega
+
+theorem rev_swap_remove_drops_once (v : Vec) (i : Nat) (hv : v.RWF) : RDropsOnce (rswapRemove v i) v [] := by
+  have ⟨hs, hl⟩ := hv.slots_eq
+  refine rdropsOnce_of_eq hv (RGrows.refl' hv) (rswapRemove_eq v v.rabs i hs hl) (by simpa using rswapRemoveSpec_perm v.rabs i) ?_
+    (by simpa using hv.2)
+  have h1 := (rswapRemoveSpec_perm v.rabs i).length_eq; have := hv.len_le_cap
+  simp only [List.length_append] at h1; omega
+
+theorem rev_push_drops_once (env : Env) (v : Vec) (id : Id) (hv : v.RWF) (hfresh : (v.total ++ [id]).Nodup) :
+    RDropsOnce (rpush env v id) v [id] := by
+  have ⟨hs, hl⟩ := hv.slots_eq
+  have ⟨g, hc⟩ := rgrown_grows (env := env) (n := 1) hv
+  refine rdropsOnce_of_eq hv g (rpush_eq env v v.rabs id hs hl) (rpushSpec_perm _ _ _) ?_ hfresh
+  have := hv.len_le_cap; have := g.cap
+  by_cases hr : rroom env v 1 = true
+  · have := hc hr; rw [hr]; simp [rpushSpec]; omega
+  · have hr' : rroom env v 1 = false := by simpa using hr
+    rw [hr']; simp [rpushSpec]; omega
+
+theorem rev_insert_drops_once (env : Env) (v : Vec) (i : Nat) (id : Id) (hv : v.RWF) (hfresh : (v.total ++ [id]).Nodup) :
+    RDropsOnce (rinsert env v i id) v [id] := by
+  have ⟨hs, hl⟩ := hv.slots_eq
+  have ⟨g, hc⟩ := rgrown_grows (env := env) (n := 1) hv
+  have hlen := insertSpec_len (rroom env v 1) v.rabs i id
+  have hcap := hv.len_le_cap
+  have heq := rinsert_eq env v v.rabs i id hs hl
+  by_cases hi : i ≤ v.len
+  · simp only [hi, ↓reduceIte] at heq
+    refine rdropsOnce_of_eq hv g heq (insertSpec_perm _ _ _ _) ?_ hfresh
+    have := g.cap
+    by_cases hr : rroom env v 1 = true
+    · have := hc hr; split at hlen <;> omega
+    · have hr' : rroom env v 1 = false := by simpa using hr
+      rw [hr'] at hlen ⊢; simp at hlen; omega
+  · simp only [hi, ↓reduceIte] at heq
+    refine rdropsOnce_of_eq hv (RGrows.refl' hv) heq (insertSpec_perm _ _ _ _) ?_ hfresh
+    have : ¬ (i ≤ v.rabs.length ∧ rroom env v 1 = true) := by omega
+    simp [this] at hlen; omega
+
+theorem rev_extend_from_slice_clone_drops_once (env : Env) (v : Vec) (n : Nat) (o : List Outcome) (hv : v.RWF)
+    (hfresh : (v.total ++ clonedIds n o).Nodup) :
+    RDropsOnce (rextendFromSliceClone env v n o) v (if rroom env v n then clonedIds n o else []) := by
+  have ⟨hs, hl⟩ := hv.slots_eq
+  have ⟨g, hc⟩ := rgrown_grows (env := env) (n := n) hv
+  refine rdropsOnce_of_eq hv g (rextendFromSliceClone_eq env v v.rabs n o hs hl) (rextendCloneSpecR_perm _ _ _ _) ?_ ?_
+  · have hlen := rextendCloneSpecR_len (rroom env v n) v.rabs n o
+    have := hv.len_le_cap; have := g.cap
+    by_cases hr : rroom env v n = true
+    · have := hc hr; rw [hr] at hlen ⊢; simp at hlen; omega
+    · have hr' : rroom env v n = false := by simpa using hr
+      rw [hr'] at hlen ⊢; simp at hlen; omega
+  · split
+    · exact hfresh
+    · simpa using hv.2
+
+theorem rev_resize_drops_once (env : Env) (v : Vec) (newLen : Nat) (value : Id) (o : List Outcome) (hv : v.RWF)
+    (hfresh : (v.total ++ resizeIns (rroom env v (newLen - v.len)) v.rabs newLen value o).Nodup) :
+    RDropsOnce (rresize env v newLen value o) v (resizeIns (rroom env v (newLen - v.len)) v.rabs newLen value o) := by
+  have ⟨hs, hl⟩ := hv.slots_eq
+  have hcap := hv.len_le_cap
+  have hlen := rresizeSpec_len (rroom env v (newLen - v.len)) env.bombs v.rabs newLen value o
+  have heq := rresize_eq env v v.rabs newLen value o hs hl
+  by_cases h : newLen > v.len
+  · have ⟨g, hc⟩ := rgrown_grows (env := env) (n := newLen - v.len) hv
+    simp only [h, ↓reduceIte] at heq
+    refine rdropsOnce_of_eq hv g heq (rresizeSpec_perm _ _ _ _ _ _) ?_ hfresh
+    have := g.cap
+    by_cases hr : rroom env v (newLen - v.len) = true
+    · have := hc hr; rw [hr] at hlen ⊢; simp at hlen; omega
+    · have hr' : rroom env v (newLen - v.len) = false := by simpa using hr
+      rw [hr'] at hlen ⊢; simp at hlen; omega
+  · simp only [h, ↓reduceIte] at heq
+    refine rdropsOnce_of_eq hv (RGrows.refl' hv) heq (rresizeSpec_perm _ _ _ _ _ _) ?_ hfresh
+    split at hlen <;> omega
+
+theorem rev_into_iter_drops_once (bombs : List Id) (v : Vec) (script : List Pull) (hv : v.RWF) :
+    RDropsOnce (rintoIter bombs v script) v [] := by
+  have ⟨hs, hl⟩ := hv.slots_eq
+  exact rdropsOnce_of_eq hv (RGrows.refl' hv) (rintoIter_eq bombs v v.rabs script hs hl)
+    (by simpa using intoIterSpec_perm bombs v.rabs script) (by simp [intoIterSpec]) (by simpa using hv.2)
+
+/-- `MutBumpVecRev::append(other)`: the elements of `other` move to the front of `self` (each still owned
+    exactly once) or — reservation refused — `other` is dropped with all its elements; `other` is left empty -/
+theorem rev_append_drops_once (env : Env) (v other : Vec) (hv : v.RWF) (ho : other.WF)
+    (hdisj : (v.total ++ other.abs).Nodup) :
+    ∃ r o', rappend env v other = .ok (r, o') ∧ r.vec.RWF ∧ o'.abs = [] ∧ o'.len = 0 ∧
+      (r.vec.total ++ (o'.dropLog.drop other.dropLog.length)).Perm (v.total ++ other.abs) := by
+  have ⟨hs, hl⟩ := hv.slots_eq
+  have ⟨hso, hlo⟩ := ho.slots_eq
+  have heq := rappend_eq env v other v.rabs other.abs hs hl hso hlo
+  have ⟨g, hc⟩ := rgrown_grows (env := env) (n := other.len) hv
+  refine ⟨_, _, heq, ?_⟩
+  by_cases hr : rroom env v other.len = true
+  · have hcap := hc hr
+    rw [hr]
+    have hw := rwf_after_of_eq (r := rappendSpec true v.rabs other.abs) (ins := other.abs) hv g
+      (by simpa [rappendSpec] using List.perm_append_comm) (by simp [rappendSpec]; omega) hdisj
+    refine ⟨hw.1, by simp [appendedOther, Vec.abs, idsOf], rfl, ?_⟩
+    simpa [appendedOther] using hw.2
+  · have hr' : rroom env v other.len = false := by simpa using hr
+    rw [hr']
+    have hw := rwf_after_of_eq (r := rappendSpec false v.rabs other.abs) (ins := []) hv g
+      (by simp [rappendSpec]) (by simp [rappendSpec]; have := hv.len_le_cap; have := g.cap; omega) (by simpa using hv.2)
+    refine ⟨hw.1, by simp [appendedOther, Vec.abs, idsOf], rfl, ?_⟩
+    have h2 := hw.2
+    simp only [List.append_nil] at h2
+    simpa [appendedOther] using List.Perm.append_right other.abs h2
+
+/-- non-vacuity (reverse vector): `[1,2,3]` at the end of a 5-slot buffer; `truncate(1)` with a panicking
+    `Drop` of id 1 still drops 1 and 2 (front to back) and keeps 3 -/
+example : rtruncate [1] { slots := H 2 ++ I [1, 2, 3], len := 3 } 1 =
+    .ok ⟨{ slots := H 4 ++ I [3], len := 1, dropLog := [1, 2] }, .panic true, []⟩ := by decide
+
+example : ({ slots := H 2 ++ I [1, 2, 3], len := 3 } : Vec).RWF := ⟨⟨[1, 2, 3], by decide, by decide⟩, by decide⟩
 
 /-- non-vacuity: a well-formed vector `[1,2,3,4,5]` with one spare slot; the predicate keeps 1, removes 2,
     keeps 3 and panics on 4: the vector is `[1,3,4,5]`, `2` was dropped once -/
